@@ -353,7 +353,22 @@ def step_correspondence(prop, tier, seed):
     # still "ok" must not hide them), then smallest first
     mism.sort(key=lambda c: (c["oracle"] == "ok", len(c["input"])))
     seen_sigs = set()
+    # cases of an open known finding are reported (once or twice) but must not use up the slots below:
+    # a different violation of the same property is not to be masked by a known class that always fails
+    known_res = [re.compile(k["sig_regex"]) for k in load_known()
+                 if k.get("status") == "open" and k.get("property") == prop["id"]]
+    known_seen = 0
     for c in mism:
+        if any(r.search(c["sig"]) for r in known_res):
+            if known_seen < 2:
+                known_seen += 1
+                if c["oracle"] != "ok":
+                    fails.append(Failure("oracle", f"property oracle on {c['sig']}", c["oracle"], case=c, oracle=c["oracle"]))
+                else:
+                    fails.append(Failure("correspondence", f"model/implementation disagreement on {c['sig']}",
+                                         f"impl={c['impl'][:400]} model={str(c['model'])[:400]}", case=c,
+                                         oracle=prop.get("disagreement_is_violation")))
+            continue
         if c["sig"] in seen_sigs and len(seen_sigs) > 0:
             continue
         seen_sigs.add(c["sig"])
@@ -482,7 +497,7 @@ def main():
         (0 if any(f.kind == "lint" for f in failures) else 1)
 
     # if a proof/translator/lint obligation broke, a concrete counterexample found by the search takes precedence
-    concrete = [f for f in failures if f.case is not None and f.oracle]
+    concrete = [f for f in failures if f.case is not None and f.oracle and not match_known(pid, f)]
     violations, known_lines = [], []
     reported = set()
     for f in failures:
